@@ -5,23 +5,32 @@ renumbered by first appearance (ids start at the wall clock of the process)."""
 import random, datetime, copy
 import bundle as B, trading
 
-KINDS = ["stock", "future", "mixed", "t0", "noreinvest", "fail", "analyser"]
+KINDS = ["stock", "future", "mixed", "t0", "noreinvest", "fail", "analyser", "initpos", "rebalance"]
 
 
 def build(spec):
     rnd = random.Random(spec["seed"])
     kind = spec["kind"]
-    wf = {"stock": False, "t0": False, "noreinvest": False, "future": True, "mixed": True}.get(kind)
-    S = B.gen_market(rnd, ndays=rnd.randrange(6, 14), with_future=wf, n_stocks=0 if kind == "future" else None)
+    wf = {"stock": False, "t0": False, "noreinvest": False, "future": True, "mixed": True, "initpos": True, "rebalance": False}.get(kind)
+    S = B.gen_market(rnd, ndays=rnd.randrange(6, 14), with_future=wf, n_stocks=0 if kind == "future" else (3 if kind == "rebalance" else None),
+                     opts={"p_delist": 0, "p_sus": 0, "p_thin": 0} if kind == "rebalance" else None)
     cfgk = trading.gen_config(rnd, S, {"no_signal": True})
     if kind == "future":
         cfgk["accounts"].pop("stock", None)
     if "stock" not in cfgk["accounts"]:
         cfgk["sim"].pop("management_fee", None)
+    if kind == "initpos" and S["futures"] and "future" in cfgk["accounts"]:
+        # the run starts from configured positions (base.init_positions) and the scripted strategy is told not to trade futures itself
+        f0 = S["futures"][0]
+        cfgk["base_extra"] = dict(cfgk.get("base_extra") or {}, init_positions="%s:%d" % (f0["id"], rnd.choice([2, 3, -2])))
+        cfgk["_no_future_orders"] = True
     if kind == "t0":
         cfgk["accounts_mod"]["stock_t1"] = False
     if kind == "stock":
         cfgk["accounts_mod"]["stock_t1"] = True
+    if kind == "rebalance":
+        cfgk["accounts"]["stock"] = 2000000.0
+        cfgk["sim"].update(volume_limit=False, signal=False)
     if kind == "noreinvest":
         cfgk["accounts_mod"]["dividend_reinvestment"] = False
         cfgk["accounts_mod"]["cash_return_by_stock_delisted"] = False
